@@ -152,7 +152,7 @@ def valid_paths(v, prefix=()):
     out = []
     if isinstance(v, dict):
         for k, x in v.items():
-            if k and '.' not in k and k not in ('*', '**'):
+            if isinstance(k, str) and k and '.' not in k and k not in ('*', '**'):
                 out.append(prefix + (k,))
                 out.extend(valid_paths(x, prefix + (k,)))
     elif isinstance(v, list):
@@ -301,6 +301,13 @@ def cli_case(col, rng, tmpdir, watch):
         spec, spec_text, spec_fmt = _Path(), '', 'python'
     if spec_text.startswith('-') or (not spec_text and not empty_spec):
         return
+    if fmt in ('python', 'yaml') and isinstance(target, dict) and rng.random() < 0.3:
+        # mappings keyed by ints (only Python literals and YAML can say that): json.dumps sorts them as numbers and prints them as
+        # JSON strings; a dict spec with int keys does the same to any target
+        target = dict(target, nums={2: 'two', 10: 'ten', 100: 'hundred'})
+        if not empty_spec and rng.random() < 0.6:
+            spec = rng.choice(['nums', {'out': 'nums'}])
+            spec_text, spec_fmt = (spec if isinstance(spec, str) else repr(spec)), 'python'
     if fmt == 'python' and rng.random() < 0.4:
         target = _tuplify(target, rng)        # (only Python literals can say tuple: the library result then holds tuples too)
         tuple_paths = ['.'.join(p) for p in valid_paths(_listify(target)) if isinstance(_follow_any(target, p), tuple)]
@@ -404,6 +411,7 @@ def _spec_shape(spec, depth=0):
 def malformed_targets(col, tmpdir):
     bad = [('python', "{'a': [1, 2}"), ('python', "{'a': 1,, 'b': 2}"), ('python', "  {'a': 1}\n{'b': 2}"), ('python', '1 +'), ('python', "'unterminated"),
            ('python', '{"a": \x00}'), ('json', '{"a": 1} trailing'), ('yaml', 'a: b\n\tc: d'), ('toml', 'a = 1\na = 2'),
+           ('json', '{"a": "line1\nline2"}'), ('json', '{"a": "tab\there"}'), ('json', '["nul\x00"]'),
            ('json', '{bad'), ('json', '[1, 2'), ('json', "{'a': 1}"), ('python', '{"a": '), ('python', '__import__("os")'),
            ('python', 'a + b'), ('yaml', 'a: [1, 2'), ('yaml', '{a: b: c}'), ('toml', 'a = '), ('toml', '[[['), ('toml', 'a = nul'),
            ('xml', '<a/>')]
